@@ -1,6 +1,7 @@
 package main
 
 import (
+	"strings"
 	"fmt"
 	"go/ast"
 	"go/token"
@@ -95,6 +96,7 @@ func ruleChanTypestate(c *Ctx) {
 		if !hasSend {
 			continue
 		}
+		wakeUpOnEveryPut(c, f, fd, spec)
 		cc := &chanClient{lockClient: lockClient{p: c.P, wrappers: wr, seen: map[string]bool{}, exitIdx: map[token.Pos]int{}}, spec: spec}
 		// receiver name may differ from "bq": derive lock path from the receiver
 		if fd.Decl.Recv != nil && len(fd.Decl.Recv.List) == 1 && len(fd.Decl.Recv.List[0].Names) == 1 {
@@ -138,4 +140,63 @@ func ruleChanTypestate(c *Ctx) {
 	}
 	c.Floor("send sites on checkBlocks", nsend, 1)
 	c.Floor("close sites of checkBlocks", nclose, 1)
+}
+
+// wakeUpOnEveryPut: whatever Put finds in the slot (free, older element, the same element again), it offers the
+// wake-up signal to the consumer before returning: a duplicate delivered after the ledger moved on by other means is
+// the only event that can make the consumer look at what is already queued.
+func wakeUpOnEveryPut(c *Ctx, f *FuncCFG, fd *FuncDecl, spec chanSpec) {
+	var sel *ast.SelectStmt
+	ast.Inspect(fd.Decl.Body, func(n ast.Node) bool {
+		if s, ok := n.(*ast.SelectStmt); ok && sel == nil {
+			ast.Inspect(s, func(m ast.Node) bool {
+				if sd, ok := m.(*ast.SendStmt); ok && f.Mentions(sd.Chan, nil)[spec.ChanField] {
+					sel = s
+				}
+				return true
+			})
+		}
+		return true
+	})
+	key := FuncKey(fd.Obj) + ".wake-up"
+	if sel == nil {
+		return
+	}
+	// the slot logic starts at the computation of the ring position
+	var from []*cfg.Block
+	attempt := map[*cfg.Block]bool{}
+	for _, b := range f.G.Blocks {
+		if !b.Live {
+			continue
+		}
+		for _, n := range b.Nodes {
+			if containsNode(sel, n) {
+				attempt[b] = true
+			}
+			inspectNoLit(n, func(x ast.Node) bool {
+				if call, ok := x.(*ast.CallExpr); ok && strings.HasSuffix(f.calleeSym(call), ").indexToPosition") && !containsNode(sel, call) {
+					from = append(from, b)
+				}
+				return true
+			})
+		}
+		if b.Stmt != nil && containsNode(sel, b.Stmt) && b.Stmt != ast.Stmt(sel) {
+			attempt[b] = true
+		}
+	}
+	if len(from) == 0 {
+		c.Unclassified(key, c.P.Pos(sel.Pos()), "no ring-position computation found before the wake-up signal")
+		return
+	}
+	r := f.reach(from, attempt, nil)
+	for _, rs := range f.OKReturns() {
+		if attempt[rs.blk] {
+			continue
+		}
+		if _, ok := r[rs.blk]; ok {
+			c.Fail(key, c.P.Pos(sel.Pos()), "Put can return (at "+c.P.Pos(rs.node.Pos())+") after looking at the slot without offering the wake-up signal: re-delivered elements no longer wake the consumer, which then never drains what is queued", f.pathTo(r, rs.blk)...)
+			return
+		}
+	}
+	c.OK(key, c.P.Pos(sel.Pos()), "every path through the slot logic offers the wake-up signal")
 }
